@@ -36,7 +36,7 @@ class LazyStack:
         if not isinstance(i, (int, np.integer)):
             raise TypeError("event-wise or slice access only")
         return self._a[int(i)]
-FEATS_FILE = ("deform", "area_um", "image", "mask", "contour", "trace",
+FEATS_FILE = ("deform", "area_um", "image", "image_bg", "mask", "contour", "trace",
               "fl1_max", "frame")
 
 
